@@ -102,6 +102,8 @@ let judge_of = function
   | "C12" -> Rp.c12_judge
   | "C04" -> Rp.c04_judge
   | "C05" -> Rp.c05_judge
+  | "C09" -> Rp.c09_judge
+  | "C10" -> Rp.c10_judge
   | p -> failwith ("no judge for " ^ p)
 
 let read_lines ic = let rec go acc = match input_line ic with l -> go (l :: acc) | exception End_of_file -> List.rev acc in go []
